@@ -37,7 +37,7 @@ if ( cd "$WT" && timeout 3000 bash -c "$DEMO" ) > "$DIR/confirm-demo-patched.log
 grep -qE "error(\[E[0-9]+\])?: |could not compile" "$DIR/confirm-demo-patched.log" && ! grep -qE "test result: FAILED|panicked at|FAILED" "$DIR/confirm-demo-patched.log" && finish REJECTED "demonstration does not compile with the patch"
 # existing suite, unedited, with the patch (demo removed again so that only existing tests count)
 git -C "$WT" clean -fdq -e target
-( cd "$WT" && timeout 7200 cargo nextest run --workspace --no-fail-fast --test-threads 8 --offline ) > "$DIR/confirm-suite.log" 2>&1
+( cd "$WT" && timeout 7200 cargo nextest run --workspace --no-fail-fast --retries 2 --test-threads 8 --offline ) > "$DIR/confirm-suite.log" 2>&1
 RC=$?
 SUMMARY=$(grep -E "Summary|tests run" "$DIR/confirm-suite.log" | tail -1)
 [ $RC -eq 0 ] || finish REJECTED "existing test suite fails with the patch: $SUMMARY $(grep -E '^\s+(FAIL|TIMEOUT|SIGABRT)' "$DIR/confirm-suite.log" | head -5 | tr '\n' ';')"
